@@ -357,6 +357,15 @@ func forged(c *common.Ctx, r *common.Rand) error {
 		name string
 		body []byte
 	}
+	// whole-database files (first id 1, no predecessor): what the node has is replaced, so on the forwarding
+	// endpoint they extend nothing unless the database is still at position 0
+	whole := func(max uint64, im *lfs.Image) []byte {
+		pages := map[uint32][]byte{}
+		for i, b := range im.Pages {
+			pages[uint32(i+1)] = b
+		}
+		return buildLTX(uint32(ps), uint32(len(im.Pages)), 1, max, 0, im.Checksum(), pages, 777)
+	}
 	corrupt := good(pos.TXID+1, pos.TXID+1, pos.Chk)
 	corrupt[ltx.HeaderSize+20] ^= 0x40
 	cases := []tc{
@@ -367,6 +376,9 @@ func forged(c *common.Ctx, r *common.Rand) error {
 		{"range-overlapping-by-two", good(pos.TXID-1, pos.TXID+1, pos.Chk)},
 		{"range-from-one-without-being-a-snapshot", good(1, pos.TXID+1, pos.Chk)},
 		{"range-with-a-gap", good(pos.TXID+2, pos.TXID+3, pos.Chk)},
+		{"whole-database-file-ending-below-the-position", whole(pos.TXID-1, after)},
+		{"whole-database-file-ending-at-the-position", whole(pos.TXID, after)},
+		{"whole-database-file-ending-beyond-the-position", whole(pos.TXID+1, after)},
 		{"wrong-pre-checksum", good(pos.TXID+1, pos.TXID+1, pos.Chk^0x55)},
 		{"corrupt-body", corrupt},
 		{"truncated", good(pos.TXID+1, pos.TXID+1, pos.Chk)[:ltx.HeaderSize+30]},
@@ -420,7 +432,7 @@ func forged(c *common.Ctx, r *common.Rand) error {
 		}
 	}
 	// ---- the same on the replication stream: a replica connected to a primary that offers bad files ----
-	for _, t := range []tc{cases[0], cases[1], cases[6], cases[7]} {
+	for _, t := range []tc{cases[0], cases[1], cases[9], cases[10]} {
 		if err := badStream(c, r, dir, t.name, ps); err != nil {
 			return err
 		}
